@@ -356,9 +356,10 @@ func (g *c16Gen) randomLeaf() string {
 		return g.num('d', small())
 	case 4:
 		if r.Bool() {
-			return g.num('r', big.NewRat(int64(r.Intn(9)-4)*3+1, 3))
+			return g.num('r', big.NewRat(int64(r.Intn(8)+1)*3+1, 3)) // 4/3, 7/3, …: no float of the universe is their rounding
 		}
-		return g.num('b', new(big.Rat).SetInt(new(big.Int).Add(new(big.Int).Lsh(big.NewInt(1), 64), big.NewInt(int64(r.Intn(3))))))
+		// bignums that no float of the universe rounds to (2^70 + k*2^20 is itself a double)
+		return g.num('b', new(big.Rat).SetInt(new(big.Int).Add(new(big.Int).Lsh(big.NewInt(1), 70), big.NewInt(int64(r.Intn(3))<<20))))
 	case 5:
 		return g.chr([]rune{'a', 'A', 'b', 'B', '1', ' ', '→', 'z'}[r.Intn(8)])
 	case 6, 7:
@@ -586,10 +587,24 @@ func c16Bool(b bool) string {
 	return "n"
 }
 
-// c16Rounded: the two numbers differ exactly but become equal when the rational operand is
-// converted to the float operand's format (the behaviour of NormalizeNumber / Fixnum.Equal).
+// c16Rounded: a pair of numbers that slip's conversion-based comparison (NormalizeNumber in
+// pkg/cl/same.go) decides through a rounding conversion with a result different from the exact
+// comparison: a rational and a float that differ exactly but are equal once the rational is
+// converted to the float's format; a bignum beyond the fixnum range and a ratio that is not exactly
+// a float64 (both become long-floats, the ratio through float64).
 func c16Rounded(a, b *c16Obj) bool {
-	if a.rat == nil || b.rat == nil || a.rat.Cmp(b.rat) == 0 {
+	if a.rat == nil || b.rat == nil {
+		return false
+	}
+	if (a.kind == "bignum" && b.kind == "ratio") || (a.kind == "ratio" && b.kind == "bignum") {
+		big, rat := a, b
+		if a.kind == "ratio" {
+			big, rat = b, a
+		}
+		_, exact := rat.rat.Float64()
+		return !big.rat.Num().IsInt64() && !exact
+	}
+	if a.rat.Cmp(b.rat) == 0 {
 		return false
 	}
 	isF := func(o *c16Obj) bool { return strings.HasSuffix(o.kind, "-float") }
@@ -608,12 +623,6 @@ func c16Rounded(a, b *c16Obj) bool {
 		return conv(b, a)
 	case isF(b) && !isF(a):
 		return conv(a, b)
-	case (a.kind == "bignum" && b.kind == "ratio") || (a.kind == "ratio" && b.kind == "bignum"):
-		// NormalizeNumber compares a bignum beyond the fixnum range and a ratio as long-floats, the
-		// ratio after a conversion to float64
-		v, _ := a.rat.Float64()
-		w, _ := b.rat.Float64()
-		return v == w
 	}
 	return false
 }
@@ -743,11 +752,12 @@ func c16CheckUniverse(c *lib.Ctx, u *c16Universe) {
 					continue
 				}
 				if (got == "t") != want {
-					aspect := "impl-" + got
-					if rounded && got == "t" {
-						aspect = "impl-t:float-rounding"
+					sig := fmt.Sprintf("pred=%s law=model kinds=%s aspect=impl-%s", c16PredName(p), kinds, got)
+					if rounded {
+						// one cause, whatever the operand kinds: the signature names the cause
+						sig = fmt.Sprintf("pred=%s law=model aspect=impl-%s:float-rounding", c16PredName(p), got)
 					}
-					c.Report(fmt.Sprintf("pred=%s law=model kinds=%s aspect=%s", c16PredName(p), kinds, aspect), sweep(i, j), rp)
+					c.Report(sig, sweep(i, j), rp)
 				}
 			}
 			// the chain eq => eql => equal => equalp on the implementation itself
@@ -768,11 +778,11 @@ func c16CheckUniverse(c *lib.Ctx, u *c16Universe) {
 					rp["observed"] = fmt.Sprintf("(p x y)=%s (p y x)=%s", x, y)
 					rp["expected"] = "same answer in both orders"
 					rp["expected_from"] = "property statement"
-					aspect := "asymmetric"
+					sig := fmt.Sprintf("pred=%s law=symmetric kinds=%s aspect=asymmetric", c16PredName(p), c16Shape(a)+","+c16Shape(b))
 					if rounded {
-						aspect = "asymmetric:float-rounding"
+						sig = fmt.Sprintf("pred=%s law=symmetric aspect=asymmetric:float-rounding", c16PredName(p))
 					}
-					c.Report(fmt.Sprintf("pred=%s law=symmetric kinds=%s aspect=%s", c16PredName(p), c16Shape(a)+","+c16Shape(b), aspect), sweep(i, j), rp)
+					c.Report(sig, sweep(i, j), rp)
 				}
 				// reflexive
 				if i == j && x == "n" {
@@ -792,7 +802,11 @@ func c16CheckUniverse(c *lib.Ctx, u *c16Universe) {
 					rp := map[string]any{"family": "sxhash", "wires": []string{a.wire, b.wire}, "input": fmt.Sprintf("(sxhash %s) (sxhash %s)", a.text, b.text),
 						"observed": hi[2:] + " vs " + hj[2:], "expected": "equal codes for equal objects", "expected_from": "property statement + SlipVerif.Equality.sxhash_congr",
 						"relies_on": []string{"SlipVerif.Equality.sxhash_congr"}}
-					c.Report(fmt.Sprintf("law=sxhash kinds=%s aspect=%s", c16Shape(a)+","+c16Shape(b), c16HashAspect(a, b, eqModel)), sweep(i, j), rp)
+					sig := fmt.Sprintf("law=sxhash kinds=%s aspect=%s", c16Shape(a)+","+c16Shape(b), c16HashAspect(a, b, eqModel))
+					if !eqModel && c16HasRounded(a, b) {
+						sig = "law=sxhash aspect=codes-differ:float-rounding"
+					}
+					c.Report(sig, sweep(i, j), rp)
 				}
 			}
 		}
@@ -815,11 +829,11 @@ func c16CheckUniverse(c *lib.Ctx, u *c16Universe) {
 						rp := map[string]any{"family": "pred3", "pred": c16PredName(p), "wires": []string{a.wire, b.wire, d.wire},
 							"input":    fmt.Sprintf("(%s x y) (%s y z) (%s x z) with x=%s y=%s z=%s", c16PredName(p), c16PredName(p), c16PredName(p), a.text, b.text, d.text),
 							"observed": "t t nil", "expected": "transitive", "expected_from": "property statement"}
-						aspect := "intransitive"
-						if c16HasRounded(a, b) || c16HasRounded(b, d) {
-							aspect = "intransitive:float-rounding"
+						sig := fmt.Sprintf("pred=%s law=transitive kinds=%s aspect=intransitive", c16PredName(p), c16Shape(a)+","+c16Shape(b)+","+c16Shape(d))
+						if c16HasRounded(a, b) || c16HasRounded(b, d) || c16HasRounded(a, d) {
+							sig = fmt.Sprintf("pred=%s law=transitive aspect=intransitive:float-rounding", c16PredName(p))
 						}
-						c.Report(fmt.Sprintf("pred=%s law=transitive kinds=%s aspect=%s", c16PredName(p), c16Shape(a)+","+c16Shape(b)+","+c16Shape(d), aspect), sweep(i, j, k), rp)
+						c.Report(sig, sweep(i, j, k), rp)
 					}
 				}
 			}
